@@ -1,3 +1,4 @@
 //! Reference models, independent of the implementation under test.
+pub mod breaker;
 pub mod buckets;
 pub mod node;
